@@ -3861,10 +3861,13 @@ reinit:
             if (!pdu)
               goto fail_resp;
 
-            coap_update_option(pdu, block_opt,
-                               coap_encode_var_safe(buf, sizeof(buf),
-                                                    (0 << 4) | (0 << 3) | block.aszx),
-                               buf);
+            if (!coap_update_option(pdu, block_opt,
+                                    coap_encode_var_safe(buf, sizeof(buf),
+                                                         (0 << 4) | (0 << 3) | block.aszx),
+                                    buf)) {
+              coap_delete_pdu(pdu);
+              goto fail_resp;
+            }
 
             if (coap_send_internal(session, pdu) == COAP_INVALID_MID)
               goto fail_resp;
@@ -3994,11 +3997,15 @@ reinit:
               /* Only sent with the first block */
               coap_remove_option(pdu, COAP_OPTION_OBSERVE);
 
-              coap_update_option(pdu, block_opt,
-                                 coap_encode_var_safe(buf, sizeof(buf),
-                                                      ((block.num + 1) << 4) |
-                                                      (block.m << 3) | block.aszx),
-                                 buf);
+              if (!coap_update_option(pdu, block_opt,
+                                      coap_encode_var_safe(buf, sizeof(buf),
+                                                           ((block.num + 1) << 4) |
+                                                           (block.m << 3) | block.aszx),
+                                      buf)) {
+                /* must not go out as a request for a different block */
+                coap_delete_pdu(pdu);
+                goto fail_resp;
+              }
 
               if (session->block_mode & COAP_BLOCK_STLESS_FETCH && pdu->code == COAP_REQUEST_CODE_FETCH) {
                 (void)coap_get_data(&lg_crcv->pdu, &length, &data);
